@@ -36,6 +36,7 @@ type Query struct {
 type FuncCtx struct {
 	eng        *Engine
 	curPos     token.Pos
+	openChans  map[string]bool // channel terms read from fields declared openchan
 	fn         *ssa.Function
 	fc         *FuncContract
 	pc         *PkgContracts
@@ -1508,6 +1509,10 @@ func (fx *FuncCtx) execUnOp(st *State, in *ssa.UnOp) {
 					fx.decls.declare("CH$open", "(Array Int Bool)")
 					st.assume(sx("select", "CH$open", v.C[0]))
 					st.assume(not(eq(v.C[0], "0")))
+					if fx.openChans == nil {
+						fx.openChans = map[string]bool{}
+					}
+					fx.openChans[v.C[0]] = true
 					fx.trusted["field "+typeStr(x.L.Root)+"."+first+" is never closed (close() calls in functions under contract are checked; others are not)"] = true
 				}
 			}
